@@ -103,6 +103,10 @@ def gen_cases(spec):
                 tgt = r.choice(names + ["missing"])
                 victim = r.choice(names)
                 files[victim] += '\ninclude "%s"\nzz := 1' % tgt
+                others = [n for n in names if n != main]
+                if others and r.random() < 0.5:
+                    # an included file that ends in a bare include directive: the includer's next tokens must survive
+                    files[r.choice(others)] += r.choice(["\ninclude", "\nInclude  // dangling\n", " INCLUDE\n\n"])
             elif m == 3:
                 # byte-level mutation of a program text
                 s = layouts.canonical(lines)
